@@ -57,16 +57,13 @@ Fixpoint consecutive (l : list Z) : bool :=
   | _ => true
   end.
 Definition fec_pkt (c : cfg) : pkt := (mkH [2; 0; 0; c_fec_pt c; 0; 0; c_fec_ssrc c; 0] false 0 [], (-1, -1)).
-(* encodeFlexFecPacket gives up (MarshalTo: errInvalidRTPPadding) when a media packet it covers is in
-   the legacy padding form; FEC packet j covers the media packets at indices = j mod nfec *)
-Fixpoint covers_legacy (nfec j i : nat) (buf : list pkt) : bool :=
-  match buf with
-  | [] => false
-  | p :: tl => (Nat.eqb (i mod nfec) j && legacy_form p) || covers_legacy nfec j (S i) tl
-  end.
+(* EncodeFec: nil for an empty batch or one above the 109 positions of the FlexFEC-03 mask; the
+   FEC packet count is clamped to the 110 rows of the coverage table.  Media packets in the legacy
+   padding form are protected like any other (marshalMediaPacket builds their wire form itself,
+   after "fix: flexfec-03 encoder protects packets whose padding is carried in the payload"). *)
 Definition encode (c : cfg) (nfec : Z) (buf : list pkt) : list pkt :=
-  if consecutive (map (fun p => h_seq (p_hdr p)) buf)
-  then flat_map (fun j => if covers_legacy (Z.to_nat nfec) j 0 buf then [] else [fec_pkt c]) (seq 0 (Z.to_nat nfec))
+  if consecutive (map (fun p => h_seq (p_hdr p)) buf) && (1 <=? length buf)%nat && (length buf <=? 109)%nat
+  then repeat (fec_pkt c) (Z.to_nat (Z.min nfec 110))
   else [].
 
 (* ---- which closure each library member contributes (kind codes are the harness's) ----
